@@ -28,6 +28,8 @@ m("C08_scratch_left_after_failed_rename", "C08", G, "                tracing::ev
 m("C15_follow_links", "C15", F, "WalkDir::new(&self.context.config.source_dir)\n", "WalkDir::new(&self.context.config.source_dir).follow_links(true)\n")
 m("C15_ext_case_insensitive", "C15", F, "if self.context.config.rust.extensions.contains(&extension_str)", "if self.context.config.rust.extensions.iter().any(|e| e.eq_ignore_ascii_case(&extension_str))")
 m("C15_ext_ends_with", "C15", F, "if self.context.config.rust.extensions.contains(&extension_str)", "if self.context.config.rust.extensions.iter().any(|e| extension_str.ends_with(e.as_str()))")
+m("C15_non_regular_files", "C15", F, ".filter(|e| e.file_type().is_file())", ".filter(|e| !e.file_type().is_dir() && !e.file_type().is_symlink())")
+m("C15_same_file_system", "C15", F, "WalkDir::new(&self.context.config.source_dir)\n", "WalkDir::new(&self.context.config.source_dir).same_file_system(true)\n")
 m("C16_default_extensions_wider", "C16", C, 'vec!["rs".to_string()]', 'vec!["rs".to_string(), "rsx".to_string()]')
 m("C16_lock_read_regardless", "C16", C, "        if !config.use_cache\n        {\n            return Ok(None);\n        }\n\n        match std::fs::read_to_string(cache_path)",
   "        if !config.use_cache && config.source_dir.is_empty()\n        {\n            return Ok(None);\n        }\n\n        match std::fs::read_to_string(cache_path)")
